@@ -581,6 +581,13 @@ Proof.
   rewrite picks_S, IH, seq_S, filter_app. simpl. destruct (Z.eqb (src k) 0); reflexivity.
 Qed.
 
+Lemma truthy_indices_exact (src : nat -> Z) n pos :
+  src pos <> 0%Z -> length (filter (fun i => negb (Z.eqb (src i) 0)) (seq 0 pos)) = n ->
+  exact m_truthy src (S n) (filter (fun i => negb (Z.eqb (src i) 0)) (seq 0 (S pos))) (S pos).
+Proof.
+  rewrite <- !picks_truthy_is_filter. apply truthy_exact.
+Qed.
+
 (* ---- interleave with an infinite list ---------------------------------------------- *)
 Section Interleave.
   Context {I : Type}.
@@ -853,6 +860,13 @@ Proof.
   unfold prefix. rewrite <- seq_shift, map_map. reflexivity.
 Qed.
 
+Lemma cumsum_exact (src : nat -> Z) n :
+  exact m_cumsum src (S n) (prefix (fun i => fold_right Z.add 0%Z (prefix src (S i))) (S n)) (S (S n)).
+Proof.
+  rewrite <- (prefix_ext (partial Z.add src) _ (S n) (fun i _ => partial_add_is_sum src i)).
+  apply scanl_exact.
+Qed.
+
 (* ---- deltas and other functions of two neighbouring items ------------------------------ *)
 Section Pairwise.
   Context {I O : Type}.
@@ -910,9 +924,11 @@ Section Windows.
       rewrite trace_S, IH, feed_step_pair. cbn [fst snd m_windows step].
       assert (E : prefix (fun j => src (S d + j)) k' ++ [src (S k' + d)] = window src (S k') (S d)).
       { unfold window. rewrite prefix_S. replace (S k' + d) with (S d + k') by lia. reflexivity. }
-      rewrite E. unfold window at 1 2. rewrite prefix_length, Nat.eqb_refl, tl_prefix.
-      rewrite (prefix_S (window src (S k'))). f_equal.
-      apply prefix_ext. intros i _. f_equal. lia.
+      rewrite E.
+      assert (L : length (window src (S k') (S d)) = S k') by (unfold window; apply prefix_length).
+      rewrite L, Nat.eqb_refl. cbn [fst snd]. f_equal.
+      + unfold window. rewrite tl_prefix. apply prefix_ext. intros i _. f_equal. lia.
+      + rewrite (prefix_S (window src (S k')) (S d)). reflexivity.
   Qed.
 
   Lemma windows_exact (src : nat -> I) n :
@@ -1105,5 +1121,144 @@ Lemma comp_run_bound {I M O} (m1 : machine I M) (m2 : machine M O) f1 f2 :
     run_until (comp m1 m2) src n fuel = Done (firstn n (snd (trace (comp m1 m2) src (f1 (f2 n))))) k.
 Proof.
   intros H1 H2 src n fuel Hf.
-  apply (run_bounded (comp m1 m2) (fun n => f1 (f2 n)) (comp_bounded m1 m2 H1 H2) src n fuel Hf).
+  apply (run_bounded (comp m1 m2) (fun n => f1 (f2 n)) (@comp_bounded _ _ _ m1 m2 f1 f2 H1 H2) src n fuel Hf).
 Qed.
+
+(* what the second machine makes of the first machine's items, on a given source *)
+Lemma comp_relative {I M O} (m1 : machine I M) (m2 : machine M O) src n b fuel :
+  warm m1 (fst (trace m1 src b)) = true ->
+  n <= length (snd (feed m2 (snd (trace m1 src b)))) ->
+  warm m2 (fst (feed m2 (snd (trace m1 src b)))) = true ->
+  b <= fuel ->
+  exists k, k <= b /\
+    run_until (comp m1 m2) src n fuel = Done (firstn n (snd (feed m2 (snd (trace m1 src b))))) k.
+Proof.
+  intros Hw1 Hn Hw2 Hf.
+  destruct (run_bounded_src (comp m1 m2) src n b) with (fuel := fuel) as (k & Hk & Hrun); [|exact Hf|].
+  - unfold ready, trace. rewrite feed_comp. cbn [fst snd comp warm]. unfold trace in *.
+    rewrite Hw1, Hw2. apply Nat.leb_le in Hn. rewrite Hn. reflexivity.
+  - exists k. split; [exact Hk|]. rewrite Hrun. unfold trace. rewrite feed_comp. reflexivity.
+Qed.
+
+(* ---- the stages of the correspondence catalogue --------------------------------------------------- *)
+Lemma uniq_mask_bounded {I} (eqb : I -> I -> bool) : lin_bounded (m_uniq_mask eqb) 1 0.
+Proof.
+  apply productive_bounded; [|reflexivity]. intros s x. simpl.
+  destruct (existsb (eqb x) s); simpl; lia.
+Qed.
+
+(* stages whose demand does not depend on the items *)
+Definition regular (s : stage) : bool :=
+  match s with
+  | SFilterMod _ _ | SFlatten | SUniquify | SGroup | STruthy => false
+  | SWindows k | SChunks k => negb (k =? 0)
+  | SStride _ s => negb (s =? 0)
+  | _ => true
+  end.
+
+Lemma stage_linear s : regular s = true -> linear (stage_machine s).
+Proof.
+  pose (d := VZ 0).
+  destruct s; simpl; intro Hr; try discriminate; unfold linear.
+  - exists 1, 0. apply imap_bounded; exact d.
+  - exists 1, 0. apply imap_bounded; exact d.
+  - exists 1, 0. apply imap_bounded; exact d.
+  - exists 1, 0. apply imap_bounded; exact d.
+  - exists 1, 0. apply interleave_bounded.
+  - exists 1, 0. apply interleave_r_bounded.
+  - exists 1, 0. apply interleave_fin_bounded.
+  - exists (1 * 1), (1 * 0 + 0). apply comp_lin_bounded; [apply prefixes_bounded|apply imap_bounded; exact []].
+  - exists 1, 1. apply scanl_bounded; exact d.
+  - exists 1, 1. apply pairwise_bounded; exact d.
+  - destruct k as [|k']; [discriminate|]. exists (1 * 1), (1 * 0 + k').
+    apply comp_lin_bounded; [apply windows_bounded; exact d|apply imap_bounded; exact []].
+  - destruct k as [|k']; [discriminate|]. exists (S k' * 1), (S k' * 0 + 0).
+    apply comp_lin_bounded; [apply chunks_bounded; exact d|apply imap_bounded; exact []].
+  - exists (1 * 1), (1 * 0 + 0). apply comp_lin_bounded; [apply uniq_mask_bounded|apply imap_bounded; exact true].
+  - exists (1 * 1), (1 * 0 + 0). apply comp_lin_bounded; [apply imap_bounded; exact d|apply imap_bounded; exact (0, d)].
+  - exists 1, 0. apply prepend_list_bounded.
+  - exists 1, 0. apply imap_bounded; exact d.
+  - exists 1, 0. apply prepend_list_bounded.
+  - exists 1, o. apply slice_bounded; exact d.
+  - destruct s as [|s']; [discriminate|]. exists (S s'), a. apply stride_bounded; [exact d|lia].
+  - exists 1, 1. apply head_remove_bounded; exact d.
+  - exists 1, 0. apply imap_bounded; exact d.
+  - exists 1, 0. apply imap_bounded; exact d.
+  - exists 1, 0. apply insert_at_bounded.
+  - exists 1, 1. apply remove_at_bounded; exact d.
+  - exists 1, 0. apply imap_bounded; exact d.
+  - exists 1, 0. apply imap_bounded; exact d.
+Qed.
+
+Lemma pipeline_linear s rest :
+  regular s = true -> forallb regular rest = true -> linear (pipeline s rest).
+Proof.
+  intros Hs Hrest. unfold pipeline. apply chain_linear; [apply stage_linear; exact Hs|].
+  apply Forall_forall. intros m Hm. apply in_map_iff in Hm. destruct Hm as (s' & <- & Hin).
+  apply stage_linear. rewrite forallb_forall in Hrest. apply Hrest. exact Hin.
+Qed.
+
+(* a linear machine: every run of it terminates within the bound *)
+Lemma linear_run {V} (m : machine V V) a b : lin_bounded m a b -> forall src n fuel, a * n + b <= fuel ->
+  exists k outs, k <= a * n + b /\ run_until m src n fuel = Done outs k /\ length outs = n.
+Proof.
+  intros Hb src n fuel Hf.
+  destruct (run_bounded m (fun n => a * n + b) Hb src n fuel Hf) as (k & Hk & Hrun).
+  exists k, (firstn n (snd (trace m src (a * n + b)))). repeat split; [exact Hk|exact Hrun|].
+  apply firstn_length_le. destruct (Hb (prefix src (a * n + b)) n) as [Hlen _]; [rewrite prefix_length; lia|].
+  exact Hlen.
+Qed.
+
+(* ---- non-vacuity of the theorems with hypotheses ------------------------------------------------- *)
+Definition ex_src (i : nat) : Z := Z.of_nat (i * i mod 7).   (* 0 1 4 2 2 4 1 0 1 4 ... *)
+
+Example filter_exact_ex :
+  run_until (m_filter Z.even) ex_src 3 20 = Done [0; 4; 2]%Z 4.
+Proof. apply (filter_exact Z.even ex_src 2 3); [reflexivity|reflexivity|lia]. Qed.
+
+Example filter_dense_ex : exists k, k <= 7 * 5 /\
+  run_until (m_filter Z.even) (fun i => Z.of_nat (i mod 7)) 5 40
+  = Done (firstn 5 (filter Z.even (prefix (fun i => Z.of_nat (i mod 7)) (7 * 5)))) k.
+Proof.
+  apply filter_dense; [|lia]. intro i. exists ((7 - i mod 7) mod 7). split; [lia|].
+  replace ((i + (7 - i mod 7) mod 7) mod 7) with 0 by lia. reflexivity.
+Qed.
+
+Example uniquify_exact_ex :
+  run_until (m_uniquify Z.eqb) ex_src 4 20 = Done [0; 1; 4; 2]%Z 4.
+Proof. apply (uniquify_exact Z.eqb ex_src 3 3); [reflexivity|reflexivity|lia]. Qed.
+
+Example uniquify_distinct_ex :
+  run_until (m_uniquify Z.eqb) Z.of_nat 5 5 = Done (prefix Z.of_nat 5) 5.
+Proof.
+  apply (uniquify_distinct_exact Z.eqb Z.of_nat 5); [|lia].
+  intros i j Hij. apply Z.eqb_neq. lia.
+Qed.
+
+Example truthy_exact_ex :
+  run_until m_truthy ex_src 2 20 = Done [1; 2] 3.
+Proof. apply (truthy_exact ex_src 1 2); [discriminate|reflexivity|lia]. Qed.
+
+Example group_exact_ex :
+  run_until (m_group Z.eqb) Z.of_nat 3 4 = Done [[0]; [1]; [2]]%Z 4.
+Proof.
+  apply (group_exact Z.eqb Z.of_nat 3); [|lia]. intro i. apply Z.eqb_neq. lia.
+Qed.
+
+Example flatten_bound_ex : exists k, k <= 5 /\
+  run_until m_flatten (fun i => [Z.of_nat i; 7%Z]) 5 5
+  = Done (firstn 5 (concat (prefix (fun i => [Z.of_nat i; 7%Z]) 5))) k.
+Proof. apply flatten_bound; [discriminate|lia]. Qed.
+
+Example stride_exact_ex :
+  run_until (m_stride 1 3) Z.of_nat 3 8 = Done [1; 4; 7]%Z 8.
+Proof. apply (stride_exact 1 3 Z.of_nat 2); lia. Qed.
+
+Example pipeline_linear_ex : linear (pipeline (SMapAffine 3 1) [SWindows 3; SChunks 2; SMapSum; SCumsum]).
+Proof. apply pipeline_linear; reflexivity. Qed.
+
+Definition even_sum (w : list Z) : bool := Z.even (fold_right Z.add 0%Z w).
+Example comp_relative_ex : exists k, k <= 8 /\
+  run_until (comp (m_windows 3) (m_filter even_sum)) ex_src 2 8
+  = Done (firstn 2 (snd (feed (m_filter even_sum) (snd (trace (m_windows 3) ex_src 8))))) k.
+Proof. apply comp_relative; [reflexivity|vm_compute; lia|reflexivity|lia]. Qed.
